@@ -1332,4 +1332,97 @@ def eliminate_none_sentinel(fn: ast.FunctionDef) -> ast.FunctionDef:
                                         val[k_] = ast.Name(x, ast.Load())
                 ast.fix_missing_locations(new)
                 changed = True
+    # type tests: `isinstance(x, K)` says `x is not None` too (an Optional lookup helper read
+    # where it is called, then tested for the class the caller wants)
+    def is_x(e, x):
+        return isinstance(e, ast.Name) and e.id == x
+
+    def not_none_atom(t, x) -> Optional[bool]:
+        """True: `x is not None` (to be dropped); False: isinstance(x, K) (kept); else None"""
+        if isinstance(t, ast.Compare) and len(t.ops) == 1 and isinstance(t.ops[0], ast.IsNot) \
+                and is_x(t.left, x) and isinstance(t.comparators[0], ast.Constant) and \
+                t.comparators[0].value is None:
+            return True
+        if isinstance(t, ast.Call) and isinstance(t.func, ast.Name) and \
+                t.func.id == 'isinstance' and len(t.args) == 2 and is_x(t.args[0], x) and \
+                'NoneType' not in ast.unparse(t.args[1]) and \
+                ast.unparse(t.args[1]) != 'object':
+            return False
+        return None
+
+    def none_atom(t, x) -> Optional[bool]:
+        if isinstance(t, ast.Compare) and len(t.ops) == 1 and isinstance(t.ops[0], ast.Is) \
+                and is_x(t.left, x) and isinstance(t.comparators[0], ast.Constant) and \
+                t.comparators[0].value is None:
+            return True
+        if isinstance(t, ast.UnaryOp) and isinstance(t.op, ast.Not) and \
+                not_none_atom(t.operand, x) is False:
+            return False
+        return None
+
+    def split(t, x, conj: bool):
+        """the test without its `x is [not] None` part, when some top-level conjunct
+        (disjunct) decides that x is not None (is None): (found, rest or None)"""
+        atom = not_none_atom if conj else none_atom
+        parts = t.values if isinstance(t, ast.BoolOp) and isinstance(
+            t.op, ast.And if conj else ast.Or) else [t]
+        if not parts or atom(parts[0], x) is None:
+            return False, t            # the deciding part comes first (evaluation order)
+        rest = [q for q in parts if atom(q, x) is not True]
+        if not rest:
+            return True, None
+        return True, rest[0] if len(rest) == 1 else ast.BoolOp(
+            ast.And() if conj else ast.Or(), rest)
+    for parent in ast.walk(new):
+        for field in ('body', 'orelse'):
+            blk = getattr(parent, field, None)
+            if not (isinstance(blk, list) and blk and isinstance(blk[0], ast.stmt)):
+                continue
+            i = 0
+            while i + 1 < len(blk):
+                a, b = blk[i], blk[i + 1]
+                i += 1
+                if not (isinstance(a, ast.Assign) and len(a.targets) == 1 and
+                        isinstance(a.targets[0], ast.Name) and isinstance(a.value, ast.IfExp)
+                        and isinstance(b, ast.If) and not b.orelse):
+                    continue
+                x = a.targets[0].id
+                nf = isinstance(a.value.body, ast.Constant) and a.value.body.value is None
+                nl = isinstance(a.value.orelse, ast.Constant) and a.value.orelse.value is None
+                v = a.value.orelse if nf else a.value.body
+                if nf == nl or x in _names(a.value) or \
+                        not isinstance(v, (ast.Subscript, ast.Call)):
+                    continue
+                stores_x = sum(1 for n in ast.walk(new) if isinstance(n, ast.Name)
+                               and n.id == x and isinstance(n.ctx, ast.Store))
+                if stores_x != 1:
+                    continue
+                some = ast.UnaryOp(ast.Not(), a.value.test) if nf else a.value.test
+                if nf and isinstance(a.value.test, ast.UnaryOp) and \
+                        isinstance(a.value.test.op, ast.Not):
+                    some = a.value.test.operand
+                none = a.value.test if nf else ast.UnaryOp(ast.Not(), a.value.test)
+                setx = ast.copy_location(ast.Assign([ast.Name(x, ast.Store())], v), a)
+                found, rest = split(b.test, x, True)
+                if found and total.get(x, 0) == 1 + uses(x, b):
+                    inner = b.body if rest is None else \
+                        [ast.copy_location(ast.If(rest, b.body, []), b)]
+                    blk[i - 1:i + 1] = [ast.copy_location(
+                        ast.If(copy.deepcopy(some), [setx] + inner, []), b)]
+                    ast.fix_missing_locations(blk[i - 1])
+                    changed = True
+                    continue
+                found, rest = split(b.test, x, False)
+                if found and b.body and \
+                        isinstance(b.body[-1], (ast.Return, ast.Continue, ast.Raise)) and \
+                        not any(x in _names(s_) for s_ in b.body):
+                    out = [ast.copy_location(ast.If(copy.deepcopy(none),
+                                                    copy.deepcopy(b.body), []), b), setx]
+                    if rest is not None:
+                        out.append(ast.copy_location(ast.If(rest, b.body, []), b))
+                    blk[i - 1:i + 1] = out
+                    for o_ in out:
+                        ast.fix_missing_locations(o_)
+                    changed = True
+                    i += len(out) - 1
     return new if changed else fn
